@@ -292,7 +292,7 @@ func ruleTxnIDStores(c *Ctx, r *Reporter) {
 			props := []string{"C01", "C11"}
 			if _, ok := isTxnIDLoad(args[pi]); ok {
 				r.okP(props, key, c.posStr(instrPos(e.Site)), "passes the transaction's current txnID")
-			} else if p, ok := args[pi].(*ssa.Parameter); ok && p.Name() == "txnID" {
+			} else if p, ok := args[pi].(*ssa.Parameter); ok && isUint64(p.Type()) {
 				r.okP(props, key, c.posStr(instrPos(e.Site)), "forwards its own txnID parameter")
 			} else {
 				r.badP(props, key, c.posStr(instrPos(e.Site)), "a node is stamped with something other than the transaction's current txnID")
@@ -879,4 +879,9 @@ func retValues(ret *ssa.Return) []ssa.Value {
 		}
 	}
 	return out
+}
+
+func isUint64(t types.Type) bool {
+	b, ok := t.Underlying().(*types.Basic)
+	return ok && b.Kind() == types.Uint64
 }
